@@ -36,25 +36,24 @@ Proof. exact span_table_vs_vm. Qed.
 Print Assumptions C10_span_table_vs_vm.
 
 (* ---- the compiler model ----
-   Full statement (NOT proved; every conjunct below that is missing from the partial theorem is
-   checked on each real compiler output by wf_check instead):
+   Full statement: PROVED below as C10_compile_wellformed (side conditions on the flattened program) and
+   C10_compile_wellformed_module (side conditions on the module tree):
 
-     Theorem C10_compile_wellformed :
-       forall M o B, module_in_range M -> compile M o = COk B ->
-                     N.of_nat (length (p_bytecode B)) < 2^31 -> wellformed_gen false B.
+       forall M o B, compile M o = COk B -> module_in_range M = true ->
+                     N.of_nat (length (p_bytecode B)) < 2^31 -> N.of_nat (length (p_data B)) < 2^32 ->
+                     wellformed_gen false B /\ trace_complete B
 
-   where module_in_range says that integer / float literals fit their machine types and all strings
-   of M are valid UTF-8.  It cannot hold with [wellformed] (= wellformed_gen true) because of A-23
-   (C10_A23_witness), nor with trace completeness because of A-24 (C10_A24_witness); the conjunct
-   "ids and names are mutually inverse" additionally needs Handle::from_u32 to be injective on the
-   ids in use.
+   where module_in_range says that integer / float literals fit their machine types and the strings copied
+   into the data section are valid UTF-8.  With the MAX_STR_LEN window that read_str had before the repair
+   of A-23 it cannot hold (C10_A23_legacy_window_refuted); at /repo HEAD the reader has no window and
+   wellformed = wellformed_gen false (C10_compile_wellformed_head).
 
-   Proved: the emission invariants, for ALL modules and card kinds.  In every program the model
-   returns, the bytecode is the encoding of an instruction list that ends with Exit, every jump
-   operand, every function / closure / card label and every trace key is the first byte of an
-   instruction of that program, and every instruction has a trace entry; the decoder returns
-   exactly that list when the operands are in range.  (Not covered: operand ranges, string operands, local/upvalue/global index ranges, the
-   variables tables.) *)
+   First, the emission invariants alone, for ALL modules and card kinds, without any condition on the
+   literals.  In every program the model returns, the bytecode is the encoding of an instruction list
+   that ends with Exit, every jump operand, every function / closure / card label and every trace key
+   is the first byte of an instruction of that program, and every instruction has a trace entry; the
+   decoder returns exactly that list when the operands are in range.  (Operand ranges, string operands,
+   local / upvalue / global index ranges and the variables tables are covered by the full theorem.) *)
 From Cao Require Import CompilerWf.
 
 Theorem C10_compile_wellformed_partial :
@@ -164,6 +163,19 @@ Theorem C10_compile_wellformed :
     wellformed_gen false B.
 Proof. exact compile_wellformed. Qed.
 Print Assumptions C10_compile_wellformed.
+
+(* the statement of the property record, for the reader of /repo HEAD (CompilerGen.read_str_windowed,
+   regenerated from the source on every run, is false; if the window came back this proof would fail) *)
+Theorem C10_compile_wellformed_head :
+  forall (M : module) (o : options) (B : compiled),
+    compile M o = COk B ->
+    program_in_range M o = true ->
+    program_utf8 M o = true ->
+    (N.of_nat (length (p_bytecode B)) < 2147483648)%N ->
+    (N.of_nat (length (p_data B)) < 4294967296)%N ->
+    wellformed B.
+Proof. exact compile_wellformed. Qed.
+Print Assumptions C10_compile_wellformed_head.
 
 (* together with: every instruction of the returned program has a source-trace entry *)
 Theorem C10_compile_trace_complete :
